@@ -205,6 +205,7 @@ type tr struct {
 	inDefer bool
 	touched map[*Var]bool
 	qcount int
+	calledResults []Term
 	hasRecover bool
 }
 
